@@ -974,10 +974,12 @@ Lemma ready_ext edges edges' em n :
 Proof. intros H. unfold ready. f_equal. now apply forallb_equiv. Qed.
 
 Lemma ready_keys_ext edges edges' tk l em :
-  (forall n d, In d (edges n) <-> In d (edges' n)) -> ready_keys edges tk l em = ready_keys edges' tk l em.
+  (forall n d, In n l -> (In d (edges n) <-> In d (edges' n))) ->
+  ready_keys edges tk l em = ready_keys edges' tk l em.
 Proof.
   intros H. induction l as [|n l IH]; cbn [ready_keys]; [reflexivity|].
-  rewrite (ready_ext edges edges' em n (H n)), IH. reflexivity.
+  rewrite (ready_ext edges edges' em n (fun d => H n d (or_introl eq_refl))), IH; [reflexivity|].
+  intros n' d Hn'. apply H. now right.
 Qed.
 
 Lemma ready_keys_perm edges tk em l l' : Permutation l l' ->
@@ -1010,21 +1012,39 @@ Proof.
 Qed.
 
 Lemma emit_ext nodes nodes' edges edges' tk :
-  Permutation nodes nodes' -> (forall n d, In d (edges n) <-> In d (edges' n)) ->
+  Permutation nodes nodes' -> (forall n d, In n nodes -> (In d (edges n) <-> In d (edges' n))) ->
   forall f em, emit nodes edges tk f em = emit nodes' edges' tk f em.
 Proof.
   intros Hp He. induction f as [|f IH]; intros em; cbn [emit]; [reflexivity|].
-  rewrite <- (ready_keys_ext edges edges' tk nodes' em He).
+  rewrite <- (ready_keys_ext edges edges' tk nodes' em).
+  2:{ intros n d Hn. apply He. eapply Permutation_in; [apply Permutation_sym; exact Hp|exact Hn]. }
   pose proof (ready_keys_perm edges tk em _ _ Hp) as H.
   destruct (ready_keys edges tk nodes em) as [a|], (ready_keys edges tk nodes' em) as [b|]; try tauto.
   rewrite (least_perm a b H). destruct (least b) as [[[p t] n]|]; [|reflexivity]. now rewrite IH.
 Qed.
 
 Lemma spec_sort_ext nodes nodes' edges edges' tk :
-  Permutation nodes nodes' -> (forall n d, In d (edges n) <-> In d (edges' n)) ->
+  Permutation nodes nodes' -> (forall n d, In n nodes -> (In d (edges n) <-> In d (edges' n))) ->
   spec_sort nodes edges tk = spec_sort nodes' edges' tk.
 Proof.
   intros Hp He. unfold spec_sort. rewrite (Permutation_length Hp). now apply emit_ext.
+Qed.
+
+Lemma ready_keys_keys_agree edges tk tk' l em :
+  (forall n, In n l -> tk n = tk' n) -> ready_keys edges tk l em = ready_keys edges tk' l em.
+Proof.
+  intros H. induction l as [|n l IH]; cbn [ready_keys]; [reflexivity|].
+  rewrite IH by (intros n' Hn'; apply H; now right). now rewrite (H n (or_introl eq_refl)).
+Qed.
+
+Lemma spec_sort_keys_agree nodes edges tk tk' :
+  (forall n, In n nodes -> tk n = tk' n) -> spec_sort nodes edges tk = spec_sort nodes edges tk'.
+Proof.
+  intros H. unfold spec_sort. generalize (List.length nodes) as f. generalize (@nil id) as em.
+  intros em f; revert em. induction f as [|f IH]; intros em; cbn [emit]; [reflexivity|].
+  rewrite (ready_keys_keys_agree edges tk tk' nodes em H).
+  destruct (ready_keys edges tk' nodes em) as [ks|]; [|reflexivity].
+  destruct (least ks) as [[[p t] n]|]; [|reflexivity]. now rewrite IH.
 Qed.
 
 Definition perm_oracles (o : oracles) : Prop := forall s A (l : list A), Permutation (o s A l) l.
@@ -1054,7 +1074,7 @@ Proof.
   intros Ho Ho' Hnd Hp He.
   rewrite (kahn_eq_spec o key_fn g Ho Hnd).
   rewrite (kahn_eq_spec o' key_fn g' Ho' (Permutation_NoDup Hp Hnd)).
-  now rewrite (spec_sort_ext _ _ _ _ (tkey_of key_fn) Hp He).
+  rewrite (spec_sort_ext _ _ _ _ (tkey_of key_fn) Hp (fun n d _ => He n d)). reflexivity.
 Qed.
 
 Lemma tkey_of_snd key_fn n k : tkey_of key_fn n = Some k -> snd k = n.
